@@ -203,18 +203,24 @@ def chooseHost (prio : List Bytes) (env : Nat → Draw) : Option Host :=
   if prio.length = 0 then filterAndChooseHost (fun _ => true) (env 0)
   else chooseHostFrom env prio 0
 
+/-- What the Go runtime guarantees about one call's nondeterminism, for a map whose
+entries are `es`: each `range` visits every entry exactly once, in some order, and
+`rng.Float64()` lies in `[0,1)`. -/
+def Draw.Valid (es : List Entry) (d : Draw) : Prop :=
+  d.it1.Perm es ∧ d.it2.Perm es ∧ d.p < d.q
+
 /-- Instrumented twin of `chooseLoop`: the *position* in the iteration sequence at which the loop
-stops (`i` = positions already passed). Proved to agree with `chooseLoop`
-(`c19_choice_position_agrees`); used only to state where in the sequence the choice falls. -/
-def chooseLoopIdx (f : Host → Bool) (q : Nat) : List Entry → Int → Nat → Option Nat
-  | [], _, _ => none
-  | (h, w) :: r, rw, i =>
+stops. Proved to agree with `chooseLoop` (`c19_choice_position_agrees`); used only to state where
+in the sequence the choice falls. -/
+def chooseLoopIdx (f : Host → Bool) (q : Nat) : List Entry → Int → Option Nat
+  | [], _ => none
+  | (h, w) :: r, rw =>
     if f h then
       let rw' := rw - ((q * w : Nat) : Int)
-      if rw' ≤ 0 then some i else chooseLoopIdx f q r rw' (i + 1)
-    else chooseLoopIdx f q r rw (i + 1)
+      if rw' ≤ 0 then some 0 else (chooseLoopIdx f q r rw').map (· + 1)
+    else (chooseLoopIdx f q r rw).map (· + 1)
 
 def filterAndChooseIdx (f : Host → Bool) (d : Draw) : Option Nat :=
-  chooseLoopIdx f d.q d.it2 ((d.p * totalWeight f d.it1 : Nat) : Int) 0
+  chooseLoopIdx f d.q d.it2 ((d.p * totalWeight f d.it1 : Nat) : Int)
 
 end Restli.D2
